@@ -673,7 +673,7 @@ impl Run {
 
 pub fn handle(w: &[&str]) -> String {
     match w {
-        ["conn", role, cfg, ops @ ..] => {
+        [_, role, cfg, ops @ ..] => {
             let Some(cfg) = parse_cfg(cfg) else { return "bad-op".into() };
             guarded(|| {
                 let Some(mut run) = start(role, &cfg) else { return "bad-op".into() };
